@@ -95,3 +95,7 @@ Check (C01.C01_roundtrip_on_input : forall fp o sizes inp bs,
   NoDup (map fst (runs inp)) \/ o_sort_all o = true ->
   forall i infl c len, read_info bs = Ok i -> In c (map fst inp) -> lookup c sizes = Some len ->
   bw_interval infl bs i c 0 len = Ok (filter (fun v => negb (boundary_zero len v)) (vals_of inp c))).
+Check (C01.C01_split_chromosome_refuted :
+  exists bs i, bw_write ieee C01.split_opts [([97], 100); ([98], 50)] C01.split_inp = Ok bs /\ read_info bs = Ok i
+    /\ length (vals_of C01.split_inp [97]) = 2%nat
+    /\ bw_interval (fun x => x) bs i [97] 0 100 = Ok [{| v_start := 0; v_end := 10; v_bits := 1065353216 |}]).
